@@ -17,6 +17,12 @@ def candles(n, seed=0, kind='random'):
             c = p
         elif kind == 'spikes':
             c = p * (1 + (0.05 if i % 17 == 3 else rng.uniform(-0.002, 0.002)))
+        elif kind == 'flatrun':
+            # long stretches of motionless candles without volume (a halted market): in the middle and at the end
+            if (n // 3 <= i < n // 3 + 45) or i >= n - 45:
+                rows.append([TS0 + i * 60000, p, p, p, p, 0.0])
+                continue
+            c = p * (1 + rng.uniform(-0.01, 0.01))
         elif kind == 'zerovol':
             c = p * (1 + rng.uniform(-0.01, 0.01))
             if i % 11 in (4, 7):
@@ -77,8 +83,25 @@ def close_enough(a, b, tol=1e-7):
         return bool(np.all(d <= tol * np.maximum(1.0, np.maximum(np.abs(a[~na]), np.abs(b[~nb])))))
 
 
-def prefix_check(name, ns=(64, 300), ks=(57, 61, 250, 123), seeds=(0, 1), kinds=('random', 'trend', 'spikes')):
-    f = get(name)
+def variants(f):
+    """non-default parameter values the statement quantifies over: the period with the other parity, another price source"""
+    import inspect
+    out = []
+    try:
+        params = inspect.signature(f).parameters
+    except (TypeError, ValueError):
+        return out
+    if 'period' in params and isinstance(params['period'].default, int) and not isinstance(params['period'].default, bool):
+        out.append({'period': params['period'].default + 1})
+    if 'source_type' in params and params['source_type'].default == 'close':
+        out.append({'source_type': 'hl2'})
+    return out
+
+
+def prefix_check(name, ns=(64, 300), ks=(57, 61, 250, 123), seeds=(0, 1), kinds=('random', 'trend', 'spikes'), kwargs=None):
+    f0 = get(name)
+    f = f0 if not kwargs else (lambda *a, **k: f0(*a, **dict(kwargs, **k)))
+    note = f' with {kwargs}' if kwargs else ''
     for kind in kinds:
         for seed in seeds:
             for n in ns:
@@ -105,7 +128,7 @@ def prefix_check(name, ns=(64, 300), ks=(57, 61, 250, 123), seeds=(0, 1), kinds=
                             continue
                         for j in range(k):
                             if not close_enough(fv[j:j + 1], pv[j:j + 1]):
-                                return (f'{name}(field {fn}): value at position {j} is {pv[j]} on the first {k} candles but {fv[j]} '
+                                return (f'{name}(field {fn}){note}: value at position {j} is {pv[j]} on the first {k} candles but {fv[j]} '
                                         f'on all {n} candles ({kind} series, seed {seed})')
     return None
 
@@ -117,7 +140,23 @@ def long_prefix_check(name):
     if d:
         return d
     # minutes without reported volume (a flat one and one with a range): fall-backs for a zero divisor must not look at the whole input
-    return prefix_check(name, ns=(96,), ks=(61, 77, 90), seeds=(5,), kinds=('zerovol',))
+    d = prefix_check(name, ns=(96,), ks=(61, 77, 90), seeds=(5,), kinds=('zerovol',))
+    if d:
+        return d
+    # a halted market (45 motionless candles in the middle and at the end), prefixes ending inside and after the flat stretch
+    d = prefix_check(name, ns=(240,), ks=(95, 110, 130, 200), seeds=(6,), kinds=('flatrun',))
+    if d:
+        return d
+    # a look-ahead of one bar only shows at the last position of a prefix: every prefix length from 30 to 199, default parameters ...
+    d = prefix_check(name, ns=(200,), ks=tuple(range(30, 200)), seeds=(2,), kinds=('random',))
+    if d:
+        return d
+    # ... and non-default parameters: the other parity of the period, another price source
+    for kw in variants(get(name)):
+        d = prefix_check(name, ns=(200,), ks=tuple(range(30, 200)), seeds=(2,), kinds=('random',), kwargs=kw)
+        if d:
+            return d
+    return None
 
 
 def lost_proof_check(name):
